@@ -61,8 +61,10 @@ Qed.
 Lemma names_are_source_names : (forall c, ts_class_name c = c_name c) /\ (forall s, rs_struct_name s = s_name s).
 Proof. split; intros; reflexivity. Qed.
 
-(* the conversion inside the metrics dictionaries: Python passes lineno on, TypeScript / Rust add 1 to the row *)
+(* the conversion inside the metrics dictionaries: Python passes lineno on, Rust adds 1 to the row of the struct node,
+   TypeScript adds 1 to the row of the `class` / `abstract` keyword child of the class node (since 147bf8d: decorators
+   precede the keyword inside the node) *)
 Lemma srp_line_tags :
-  lookup "line" py_metrics_dict = Some (TLine 0) /\ lookup "line" ts_metrics_dict = Some (TLine 1) /\ lookup "line" rs_metrics_dict = Some (TLine 1)
+  lookup "line" py_metrics_dict = Some (TLine 0) /\ lookup "line" ts_metrics_dict = Some (THLine 1) /\ lookup "line" rs_metrics_dict = Some (TLine 1)
   /\ srp_position_keys = ("line", "column").
 Proof. repeat split; reflexivity. Qed.
